@@ -145,13 +145,20 @@ func (h *verifWHist) runTokScript() map[string]interface{} {
 	h.scriptEvent(b, -1, verifWMeta{})                                // a transfer behind them
 	tx5, _ := h.scriptEvent(b, 0, verifWMeta{18, "ALPH", "Alephium"}) // the native token, canonical
 	tx6, _ := h.scriptEvent(b, 0, verifWMeta{0, "FAKE", "Alephium"})  // the native token, forged
+	// the token's own name / symbol followed by a NUL byte and more text: not what the token contract reports, must not be forwarded
+	txs := []*verifWTx{tx2, tx3, tx5, tx6}
+	if len(cur.name)+5 <= 32 && len(cur.sym)+3 <= 32 {
+		tx7, _ := h.scriptEvent(b, tid, verifWMeta{cur.dec, cur.sym, cur.name + "\x00(W2)"})
+		tx8, _ := h.scriptEvent(b, tid, verifWMeta{cur.dec, cur.sym + "\x00.x", cur.name})
+		txs = append(txs, tx7, tx8)
+	}
 	if !h.dead {
 		h.pollAll()
 	}
 	if !h.dead {
 		h.stepTick(h.sim.height, nil)
 	}
-	for _, tx := range []*verifWTx{tx2, tx3, tx5, tx6} {
+	for _, tx := range txs {
 		if !h.dead {
 			h.stepReobs(tx, nil, false)
 		}
